@@ -179,3 +179,32 @@ def square_from_vector(vec, n):
             p += 1
     assert p == len(vec), (p, len(vec), n)
     return m
+
+
+def val_b(r, a, b, salt='v'):
+    """numerically varied, deterministic, dyadic-rational value for (rdm uid, cond uid pair)"""
+    from .kernel import H
+    lo, hi = (a, b) if a <= b else (b, a)
+    return 0.5 + (H(salt, int(r), int(lo), int(hi)) % 4096) / 512.0
+
+
+def make_value_fn(salt='v', alt_salt=None, alt_pred=None):
+    def fn(r, a, b):
+        if alt_pred is not None and alt_pred(r, a, b):
+            return val_b(r, a, b, alt_salt)
+        return val_b(r, a, b, salt)
+    return fn
+
+
+def build_model_rdms(spec, n_basis, salt='m', measure=None):
+    """basis RDMs over the same conditions and pattern descriptors as the data spec"""
+    from rsatoolbox.rdm import RDMs
+    cu = spec['cond_uids']
+    nc = len(cu)
+    iu = np.triu_indices(nc, 1)
+    vecs = np.array([[val_b(900 + m, cu[i], cu[j], salt) for i, j in zip(*iu)] for m in range(n_basis)]).reshape(n_basis, -1)
+    pat_desc = {'uid': list(cu)}
+    for k, d in spec.get('pat_desc', {}).items():
+        pat_desc[k] = _container(d)
+    return RDMs(vecs, dissimilarity_measure=measure, pattern_descriptors=pat_desc,
+                rdm_descriptors={'uid': [900 + m for m in range(n_basis)]})
